@@ -341,6 +341,70 @@ theorem churn_every_shard_reported (es : List Event) (hw : ∀ e ∈ es, WellFor
   obtain ⟨s, hs⟩ := hok.reported sid rs h2
   exact ⟨ss, s, mem_of_lookup _ _ _ hss, mem_of_lookup _ _ _ hs⟩
 
+/-! ## 6. Placement and leadership together -/
+
+/-- what `ShardAssignment` returns is a well-formed assignment event (distinct shard ids) -/
+theorem shardAssignment_wellFormed (nodes : List Nat) (numShards rf : Int) (start shift startShard : Nat)
+    (db : Nat) (res : Assignment)
+    (hok : shardAssignment nodes numShards rf start shift startShard = .ok res) :
+    WellFormed (.assignChanged db res) := by
+  unfold shardAssignment at hok
+  split at hok
+  · cases hok
+  · split at hok
+    · cases hok
+    · split at hok
+      · cases hok
+      · cases hok
+        exact nodup_keys_assignLoop nodes _ start _ shift startShard [] (by simp [Map.keys])
+
+/-- A database created on nodes that are all alive starts with every shard online: after any
+event history, delivering the assignment computed by `ShardAssignment` over a list of live nodes
+yields only online shards for that database, each led by an alive replica. -/
+theorem created_on_live_nodes_all_online (es : List Event) (hw : ∀ e ∈ es, WellFormed e)
+    (nodes : List Nat) (hnd : nodes.Nodup) (numShards rf : Int) (start shift : Nat) (db : Nat)
+    (res : Assignment) (hlive : ∀ r ∈ nodes, r ∈ (run St.init es).live)
+    (hok : shardAssignment nodes numShards rf start shift 0 = .ok res) :
+    let st := step (run St.init es) (.assignChanged db res)
+    ∀ ss, (db, ss) ∈ st.shards → ∀ sid s, (sid, s) ∈ ss →
+      s.state = stOnline ∧ ∃ l : Nat, s.leader = (l : Int) ∧ l ∈ st.live ∧ l ∈ s.replicas := by
+  intro st ss hdb sid s hsid
+  have hwf := shardAssignment_wellFormed nodes numShards rf start shift 0 db res hok
+  have hinv : Inv st := inv_step (inv_reachable es hw) _ hwf
+  have h1 := lookup_of_mem st.shards db ss hinv.shards_keys hdb
+  obtain ⟨a, ha, hdbok⟩ := hinv.db_ok db ss h1
+  have ha' : Map.lookup st.asg db = some res := Map.lookup_upsert_self _ _ _
+  rw [ha'] at ha; cases ha
+  have h2 := lookup_of_mem ss sid s hdbok.st_keys hsid
+  obtain ⟨rs, hr, hso⟩ := hdbok.shard_ok sid s h2
+  -- the parameters were accepted, so the validity theorem applies
+  have hpos : 0 < numShards ∧ 0 < rf ∧ rf ≤ nodes.length := by
+    unfold shardAssignment at hok
+    split at hok
+    · cases hok
+    · split at hok
+      · cases hok
+      · split at hok
+        · cases hok
+        · omega
+  obtain ⟨res', hok', hin, hout⟩ := shardAssignment_valid nodes hnd numShards rf start shift 0
+    hpos.1 hpos.2.1 hpos.2.2
+  rw [hok] at hok'; cases hok'
+  have hrange : (sid : Int) < (0 : Nat) + numShards := by
+    apply Classical.byContradiction
+    intro hn
+    have := hout sid (Or.inr (by omega))
+    rw [hr] at this; cases this
+  obtain ⟨rs', hr', hv⟩ := hin sid (Nat.zero_le _) hrange
+  rw [hr] at hr'; cases hr'
+  obtain ⟨hlen, _, hsub⟩ := hv
+  have hne : rs ≠ [] := by
+    intro e; rw [e] at hlen; simp at hlen; omega
+  obtain ⟨r0, hr0⟩ := List.exists_mem_of_ne_nil rs hne
+  have hon : s.state = stOnline := hso.online_iff.mpr ⟨r0, hr0, hlive r0 (hsub r0 hr0)⟩
+  obtain ⟨l, k1, k2, k3⟩ := hso.leader_ok hon
+  exact ⟨hon, l, k1, k2, hso.replicas_eq ▸ k3⟩
+
 /-! ## Non-vacuity -/
 
 /-- a reachable state with an online shard (led by the surviving replica) and an offline shard -/
